@@ -3,8 +3,9 @@
    (no OutOfFuel): each iteration consumes input (JPEG 2000 skipSegment with length 0/1 moves the
    offset back by at most 2 after 4 bytes were read). Memory: every allocation request recorded by
    a model is bounded by c*S + 2*length + 65536, where S = width*height*components declared by the
-   frame header of the stream (frame_declared m bs: the first segment with the decoder's SOF marker
-   m met by its marker loop - the decoders reject a second one, F44) resp. by the SIZ segment.
+   FIRST frame header of the stream, of any kind (frame_declared bs = declared_S bs for JPEG / JPEG-LS
+   streams: the decoders reject a second frame header, F44, and a frame header of a process they do
+   not implement, F47) resp. by the SIZ segment.
    What the theorems cannot show - wall-clock time, GC and allocator behaviour, and the work of the
    entropy / packet decoders - is measured by harness/suites/parsers (10 s, 512 MiB + 64*S). *)
 From V Require Import Common.Base Parsers.PrsOutcome Parsers.PrsJls Parsers.PrsJpeg Parsers.PrsBaseline
@@ -42,23 +43,23 @@ Print Assumptions C09_j2k_tile_part_progress.
 
 (* ---- allocation requests, relative to the declared size ---- *)
 Theorem C09_jls_lossless_alloc : forall bs, bytes bs ->
-  Forall (fun a => a <= 8 * frame_declared 247 bs + 2 * zlen bs + 65536) (snd (jlsl_decode (fuel_of bs) bs)).
+  Forall (fun a => a <= 8 * frame_declared bs + 2 * zlen bs + 65536) (snd (jlsl_decode (fuel_of bs) bs)).
 Proof. exact jlsl_decode_alloc. Qed.
 Print Assumptions C09_jls_lossless_alloc.
 Theorem C09_jls_near_alloc : forall bs, bytes bs ->
-  Forall (fun a => a <= 8 * frame_declared 247 bs + 2 * zlen bs + 65536) (snd (jlsn_decode (fuel_of bs) bs)).
+  Forall (fun a => a <= 8 * frame_declared bs + 2 * zlen bs + 65536) (snd (jlsn_decode (fuel_of bs) bs)).
 Proof. exact jlsn_decode_alloc. Qed.
 Print Assumptions C09_jls_near_alloc.
 Theorem C09_jpeg_lossless_alloc : forall bs, bytes bs ->
-  Forall (fun a => a <= 8 * frame_declared 195 bs + 2 * zlen bs + 65536) (snd (jll_decode (fuel_of bs) bs)).
+  Forall (fun a => a <= 8 * frame_declared bs + 2 * zlen bs + 65536) (snd (jll_decode (fuel_of bs) bs)).
 Proof. exact jll_decode_alloc. Qed.
 Print Assumptions C09_jpeg_lossless_alloc.
 Theorem C09_jpeg_sv1_alloc : forall bs, bytes bs ->
-  Forall (fun a => a <= 8 * frame_declared 195 bs + 2 * zlen bs + 65536) (snd (sv1_decode (fuel_of bs) bs)).
+  Forall (fun a => a <= 8 * frame_declared bs + 2 * zlen bs + 65536) (snd (sv1_decode (fuel_of bs) bs)).
 Proof. exact sv1_decode_alloc. Qed.
 Print Assumptions C09_jpeg_sv1_alloc.
 Theorem C09_jpeg_baseline_alloc : forall bs, bytes bs ->
-  Forall (fun a => a <= 64 * frame_declared 192 bs + 2 * zlen bs + 65536) (snd (bl_decode (fuel_of bs) bs)).
+  Forall (fun a => a <= 64 * frame_declared bs + 2 * zlen bs + 65536) (snd (bl_decode (fuel_of bs) bs)).
 Proof. exact bl_decode_alloc. Qed.
 Print Assumptions C09_jpeg_baseline_alloc.
 Theorem C09_j2k_main_header_alloc : forall d, bytes d ->
@@ -78,12 +79,12 @@ Print Assumptions C09_rle_any_frameinfo_alloc.
 (* ---- non-vacuity ---- *)
 Example C09_nonvacuous_jls_alloc :
   let bs := [255;216;255;247;0;11;8;0;2;0;3;1;1;17;0;255;218;0;8;1;1;0;0;0;0] in
-  bytes bs /\ frame_declared 247 bs = 6 /\ snd (jlsl_decode (fuel_of bs) bs) = [9; 14600; 6; 512; 48; 6].
+  bytes bs /\ frame_declared bs = 6 /\ snd (jlsl_decode (fuel_of bs) bs) = [9; 14600; 6; 512; 48; 6].
 Proof. cbv zeta. split; [unfold bytes; repeat constructor; lia|]. split; vm_compute; reflexivity. Qed.
 
 Example C09_nonvacuous_sv1_alloc :
   let bs := [255;216;255;195;0;11;8;0;3;0;4;1;1;17;0;255;217] in
-  bytes bs /\ frame_declared 195 bs = 12 /\ snd (sv1_decode (fuel_of bs) bs) = [9; 8; 96; 12].
+  bytes bs /\ frame_declared bs = 12 /\ snd (sv1_decode (fuel_of bs) bs) = [9; 8; 96; 12].
 Proof. cbv zeta. split; [unfold bytes; repeat constructor; lia|]. split; vm_compute; reflexivity. Qed.
 
 Example C09_nonvacuous_tile_progress :
